@@ -61,7 +61,27 @@ func onePageState(b *centrifuge.MemoryMapBroker, reg *registry, si int, st map[s
 	rng.Shuffle(len(keys), func(i, j int) { keys[i], keys[j] = keys[j], keys[i] })
 	desc := map[string]any{"ordered": cfg.Ord, "state": mst}
 	fail := func(sig, what string) {
-		res.Violate("C21", sig, fmt.Sprintf("%s (state %d: ordered=%v %s)", what, si, cfg.Ord, vh.J(mst)), desc)
+		res.Violate("C21", sig, fmt.Sprintf("%s (state %d: ordered=%v %s; channel built by: %v)", what, si, cfg.Ord, vh.J(mst), desc["built"]), desc)
+	}
+	// how the channel object comes to exist before the keys are published: 0 = by the first publish; 1 = by a ReadState
+	// of the still empty channel (a subscriber arrives first); 2 = by a ReadStream; 3 = the channel held keys, was cleared
+	// and is read again; 4 = all its keys were removed, it is read, then filled
+	variant := (si + int(vh.Seed())) % 5
+	desc["built"] = []string{"publish first", "ReadState before the first publish", "ReadStream before the first publish",
+		"publish, Clear, ReadState, publish", "publish, Remove, ReadState, publish"}[variant]
+	switch variant {
+	case 1:
+		_, _ = b.ReadState(bg, ch, centrifuge.MapReadStateOptions{Limit: 2})
+	case 2:
+		_, _ = b.ReadStream(bg, ch, centrifuge.MapReadStreamOptions{Filter: centrifuge.StreamFilter{Limit: -1}})
+	case 3:
+		_, _ = b.Publish(bg, ch, "q", centrifuge.VerifMapScore(centrifuge.MapPublishOptions{Data: []byte("0")}, 5))
+		_ = b.Clear(bg, ch, centrifuge.MapClearOptions{})
+		_, _ = b.ReadState(bg, ch, centrifuge.MapReadStateOptions{Limit: -1, Asc: true})
+	case 4:
+		_, _ = b.Publish(bg, ch, "q", centrifuge.VerifMapScore(centrifuge.MapPublishOptions{Data: []byte("0")}, 5))
+		_, _ = b.Remove(bg, ch, "q", centrifuge.MapRemoveOptions{})
+		_, _ = b.ReadState(bg, ch, centrifuge.MapReadStateOptions{Limit: 1})
 	}
 	stored := map[string]statePub{}
 	id := 0
@@ -216,6 +236,7 @@ func onePageState(b *centrifuge.MemoryMapBroker, reg *registry, si int, st map[s
 	if si < 2 {
 		res.Sample(desc)
 	}
+	res.Count(fmt.Sprintf("built_variant_%d", variant), 1)
 	res.Done(1, c)
 	_ = b.Clear(bg, ch, centrifuge.MapClearOptions{})
 }
